@@ -219,8 +219,12 @@ REGEX_FUNCS = {"finditer", "search", "match", "fullmatch", "sub", "findall", "sp
 HAND_MODELLED = {b"(?r):\\d*"}     # network.py parse_authority: modelled by hand (Model/Dec), pinned by its probe
 
 
-def collect():
-    """[(name, pattern bytes, where)]"""
+SKIPPED = []
+
+
+def collect(strict=False):
+    """[(name, pattern bytes, where)].  strict (the translator): an inline pattern that cannot be evaluated statically raises (fail closed);
+    otherwise (generators, probes) it is skipped and listed in SKIPPED, so that the remaining probes still run."""
     import multidecoder
     import multidecoder.decoders
     mods = ["multidecoder." + m.name for m in pkgutil.iter_modules(multidecoder.__path__) if not m.ispkg]
@@ -252,14 +256,17 @@ def collect():
                         try:
                             val = eval(compile(ast.Expression(a0), "<pattern>", "eval"), vars(mod))
                         except Exception as ex:  # noqa: BLE001
-                            raise Unsupported(f"{short}.{fn.name}: cannot evaluate inline pattern: {ex}")
+                            if strict:
+                                raise Unsupported(f"{short}.{fn.name}: cannot evaluate inline pattern: {ex}")
+                            SKIPPED.append(f"{short}.{fn.name}")
+                            continue
                         out.append((f"{short}_{fn.name}_{k}", val, f"{short}.{fn.name} inline #{k} (computed)"))
                         k += 1
     return out
 
 
 def generate():
-    pats = collect()
+    pats = collect(strict=True)
     lines = ["(* GENERATED by harness/gen_regexes.py from /repo/src - do not edit.",
              "   One definition per regular expression the code uses (the pattern text is deliberately not repeated here). *)",
              "From Coq Require Import List NArith String.", "From MD Require Import Regex.Syntax.",
